@@ -53,6 +53,7 @@ impl Range {
 
 
     pub const _ERROR_NO_EMPTY_LINE_BETWEEN_CONTENT_RANGE_HEADER_AND_BODY: &'static str = "no empty line between content range headers and body";
+    pub const _ERROR_UNABLE_TO_FIND_CLOSING_BOUNDARY: &'static str = "unable to find the closing boundary of the multipart body";
     pub const _ERROR_UNABLE_TO_PARSE_CONTENT_RANGE: &'static str = "unable to parse content-range";
 
     pub const ERROR_START_IS_AFTER_END_CONTENT_RANGE: &'static str = "start is after end in content range";
@@ -417,7 +418,10 @@ impl Range {
             let separator = [SYMBOL.hyphen, SYMBOL.hyphen, Range::STRING_SEPARATOR].join("");
             while !buf.starts_with(separator.as_bytes()) {
                 buf = vec![];
-                cursor.read_until(b'\n', &mut buf).unwrap();
+                let bytes_read = cursor.read_until(b'\n', &mut buf).unwrap();
+                if bytes_read == 0 {
+                    return Err(Range::_ERROR_UNABLE_TO_FIND_CLOSING_BOUNDARY.to_string());
+                }
                 let separator = [SYMBOL.hyphen, SYMBOL.hyphen, Range::STRING_SEPARATOR].join("");
                 if !buf.starts_with(separator.as_bytes()) {
                     body = [body, buf.to_vec()].concat();
@@ -703,7 +707,10 @@ impl Range {
             let separator = [SYMBOL.hyphen, SYMBOL.hyphen, Range::STRING_SEPARATOR].join("");
             while !buf.starts_with(separator.as_bytes()) {
                 buf = vec![];
-                cursor.read_until(b'\n', &mut buf).unwrap();
+                let bytes_read = cursor.read_until(b'\n', &mut buf).unwrap();
+                if bytes_read == 0 {
+                    return Err(Range::_ERROR_UNABLE_TO_FIND_CLOSING_BOUNDARY.to_string());
+                }
                 let separator = [SYMBOL.hyphen, SYMBOL.hyphen, Range::STRING_SEPARATOR].join("");
                 if !buf.starts_with(separator.as_bytes()) {
                     body = [body, buf.to_vec()].concat();
